@@ -161,6 +161,38 @@ func rulePU4() Rule {
 								report(tgt, x.Pos(), exprStr(x.X)+x.Tok.String())
 							}
 						case *ast.CallExpr:
+							// an alias (or the field itself, or a slice of it) handed to a
+							// function that writes the elements of that parameter
+							if fo := core.StaticCallee(info, x); fo != nil {
+								if h := c.P.FuncOf(fo); h != nil && h.Body != nil {
+									for i, a := range x.Args {
+										a = ast.Unparen(a)
+										tgt := ""
+										if id, ok := a.(*ast.Ident); ok {
+											tgt = alias[info.Uses[id]]
+										} else {
+											b := a
+											if se, ok := b.(*ast.SliceExpr); ok {
+												b = ast.Unparen(se.X)
+											}
+											if _, isSel := b.(*ast.SelectorExpr); isSel {
+												if t := envFieldTarget(info, b); t != "" {
+													if _, isSlice := info.Types[a].Type.Underlying().(*types.Slice); isSlice {
+														tgt = t
+													}
+												}
+											}
+										}
+										if tgt == "" {
+											continue
+										}
+										if c.writesParamElems(h, i, 0) {
+											key := f.Name + "|" + h.Short + "(" + exprStr(a) + ") (alias of " + tgt + ")"
+											rr.Bad(f, key, x.Pos(), "a slice that aliases ExecEnv."+tgt+" is handed to "+h.Short+", which writes the elements of that parameter: the caller's "+tgt+" is modified")
+										}
+									}
+								}
+							}
 							if isBuiltinCall(info, x, "delete") && len(x.Args) == 2 {
 								if tgt := envFieldTarget(info, x.Args[0]); tgt != "" {
 									report(tgt, x.Pos(), "delete("+exprStr(x.Args[0])+")")
@@ -364,4 +396,222 @@ func enclosingCaseWithStrings(p *core.Program, info *types.Info, n ast.Node) *as
 		}
 	}
 	return nil
+}
+
+// writesParamElems reports whether h assigns an element of its idx-th
+// parameter (p[i] = …, copy(p, …), sort of p) or hands it on to a function
+// that does.
+func (c *Ctx) writesParamElems(h *core.Func, idx int, depth int) bool {
+	if depth > 3 || h.Type == nil || h.Type.Params == nil {
+		return false
+	}
+	info := h.Info()
+	var param types.Object
+	k := 0
+	for _, fld := range h.Type.Params.List {
+		for _, id := range fld.Names {
+			if k == idx {
+				param = info.Defs[id]
+			}
+			k++
+		}
+	}
+	if param == nil {
+		return false
+	}
+	isP := func(e ast.Expr) bool {
+		e = ast.Unparen(e)
+		if se, ok := e.(*ast.SliceExpr); ok {
+			e = ast.Unparen(se.X)
+		}
+		id, ok := e.(*ast.Ident)
+		return ok && info.Uses[id] == param
+	}
+	found := false
+	h.OwnNodes(func(n ast.Node) bool {
+		switch x := n.(type) {
+		case *ast.AssignStmt:
+			for _, l := range x.Lhs {
+				if ix, ok := ast.Unparen(l).(*ast.IndexExpr); ok && isP(ix.X) {
+					found = true
+				}
+			}
+		case *ast.IncDecStmt:
+			if ix, ok := ast.Unparen(x.X).(*ast.IndexExpr); ok && isP(ix.X) {
+				found = true
+			}
+		case *ast.CallExpr:
+			if isBuiltinCall(info, x, "copy") && len(x.Args) == 2 && isP(x.Args[0]) {
+				found = true
+			}
+			if name := calleeName(info, x); strings.HasPrefix(name, "sort.") && len(x.Args) >= 1 && isP(x.Args[0]) {
+				found = true
+			}
+			if fo := core.StaticCallee(info, x); fo != nil {
+				if g := c.P.FuncOf(fo); g != nil && g != h && g.Body != nil {
+					for i, a := range x.Args {
+						if isP(a) && c.writesParamElems(g, i, depth+1) {
+							found = true
+						}
+					}
+				}
+			}
+		}
+		return !found
+	})
+	return found
+}
+
+// ---------------------------------------------------------------------------
+// PU10: Get looks a name up in the variable map only after it has decided that
+// the name is neither a special nor a positional parameter.
+
+func rulePU10() Rule {
+	return Rule{ID: "PU10", Kind: "must", Floor: 1,
+		Doc: "in ExecEnv.Get every read of the variable map is reached only after the name has been tested for a special parameter (the switch over the one-character names, or isSpParam) and for a positional parameter (isPosParam) on every path: the map can hold such names - NewExecEnv imports the process environment unfiltered - and they must not shadow $1, $#, $0 …",
+		Run: func(c *Ctx, rr *core.RuleResult) {
+			f := c.mustFn(rr, "interp.(*ExecEnv).Get")
+			if f == nil {
+				return
+			}
+			info := f.Info()
+			vars := c.fieldVar("interp", "ExecEnv", "vars")
+			isPos := c.fn("interp.(*ExecEnv).isPosParam")
+			isSp := c.fn("interp.(*ExecEnv).isSpParam")
+			if vars == nil {
+				rr.Unkp(c.P, "anchor:ExecEnv.vars", 0, "field ExecEnv.vars not found")
+				return
+			}
+			var nameParam types.Object
+			if f.Type.Params != nil && len(f.Type.Params.List) > 0 && len(f.Type.Params.List[0].Names) > 0 {
+				nameParam = info.Defs[f.Type.Params.List[0].Names[0]]
+			}
+			callOf := func(n ast.Node, g *core.Func) bool {
+				call, ok := n.(*ast.CallExpr)
+				if !ok || g == nil {
+					return false
+				}
+				fo := core.StaticCallee(info, call)
+				return fo != nil && c.P.FuncOf(fo) == g
+			}
+			posSeen := core.NewFlow(f).MustSeen(false, func(n ast.Node) bool { return callOf(n, isPos) }, nil)
+			// the switch over a name whose clauses list one-character strings
+			spSwitch := func(info *types.Info, n ast.Node, name types.Object) bool {
+				sw, ok := n.(*ast.SwitchStmt)
+				if !ok || sw.Tag == nil {
+					return false
+				}
+				id, ok := ast.Unparen(sw.Tag).(*ast.Ident)
+				if !ok || info.Uses[id] != name {
+					return false
+				}
+				for _, cl := range sw.Body.List {
+					for _, e := range cl.(*ast.CaseClause).List {
+						if s, ok := constStr(info, e); ok && len(s) == 1 {
+							return true
+						}
+					}
+				}
+				return false
+			}
+			// a helper of the package that is handed the name and decides the special parameters itself
+			decidesSpecials := func(call *ast.CallExpr) bool {
+				fo := core.StaticCallee(info, call)
+				if fo == nil {
+					return false
+				}
+				h := c.P.FuncOf(fo)
+				if h == nil || h.Pkg != f.Pkg || h.Body == nil || h == f || h.Type.Params == nil {
+					return false
+				}
+				for i, a := range call.Args {
+					id, ok := ast.Unparen(a).(*ast.Ident)
+					if !ok || info.Uses[id] != nameParam {
+						continue
+					}
+					var hp types.Object
+					k := 0
+					for _, fld := range h.Type.Params.List {
+						for _, nm := range fld.Names {
+							if k == i {
+								hp = h.Info().Defs[nm]
+							}
+							k++
+						}
+					}
+					if hp == nil {
+						continue
+					}
+					found := false
+					h.OwnNodes(func(x ast.Node) bool {
+						if spSwitch(h.Info(), x, hp) {
+							found = true
+						}
+						if hc, ok := x.(*ast.CallExpr); ok && isSp != nil {
+							if ho := core.StaticCallee(h.Info(), hc); ho != nil && c.P.FuncOf(ho) == isSp {
+								found = true
+							}
+						}
+						return !found
+					})
+					if found {
+						return true
+					}
+				}
+				return false
+			}
+			spSeen := core.NewFlow(f).MustSeen(false, func(n ast.Node) bool {
+				if callOf(n, isSp) {
+					return true
+				}
+				if call, ok := n.(*ast.CallExpr); ok && decidesSpecials(call) {
+					return true
+				}
+				return spSwitch(info, n, nameParam)
+			}, nil)
+			// a name of any other length than one is no special parameter: the
+			// test `len(name) == 1` failing decides it too
+			lenTest := core.NewFlow(f).MustSeen(false, func(n ast.Node) bool {
+				be, ok := n.(*ast.BinaryExpr)
+				if !ok || (be.Op != token.EQL && be.Op != token.NEQ) {
+					return false
+				}
+				call, ok := ast.Unparen(be.X).(*ast.CallExpr)
+				if !ok || !isBuiltinCall(info, call, "len") || len(call.Args) != 1 {
+					return false
+				}
+				id, ok := ast.Unparen(call.Args[0]).(*ast.Ident)
+				v, okv := constInt(info, be.Y)
+				return ok && info.Uses[id] == nameParam && okv && v == 1
+			}, nil)
+			n := 0
+			f.OwnNodes(func(x ast.Node) bool {
+				ix, ok := x.(*ast.IndexExpr)
+				if !ok || core.FieldOf(info, ix.X) != vars {
+					return true
+				}
+				// reads only: an assignment target is PU4's business
+				if as, ok := c.P.Parent(ix).(*ast.AssignStmt); ok {
+					for _, l := range as.Lhs {
+						if l == ast.Expr(ix) {
+							return true
+						}
+					}
+				}
+				n++
+				key := fmt.Sprintf("%s|read of vars #%d", f.Name, n)
+				switch {
+				case !posSeen[ix]:
+					rr.Bad(f, key, ix.Pos(), "the variable map is consulted on a path that has not asked isPosParam: an imported environment entry named like a positional parameter (`1=x prog`) shadows $1")
+				case !spSeen[ix] && !lenTest[ix]:
+					rr.Bad(f, key, ix.Pos(), "the variable map is consulted on a path that has not dealt with the special parameters: an imported environment entry named `#`, `0`, `?` … shadows the parameter")
+				default:
+					rr.OK(f, key, ix.Pos(), "after the tests", "special and positional names never reach the map")
+				}
+				return true
+			})
+			if n == 0 {
+				rr.Unk(f, f.Name+"|read of vars", f.Pos(), "Get does not read ExecEnv.vars: idiom not recognised")
+			}
+		}}
 }
